@@ -620,6 +620,42 @@ enum Case {
     BufLen(usize),
 }
 
+/// geometries near the numeric limits of the coordinate type: acceptance must still follow the closed
+/// form (computed in u128), and nothing may panic
+fn huge_case<C: Cc>(rep: &mut Report) {
+    let ws: [u32; 13] = [1 << 24, 1 << 28, (1 << 29) - 1, 1 << 29, (1 << 30) - 1, 1 << 30, (1 << 31) - 1, 1 << 31, u32::MAX - 8, u32::MAX - 7, u32::MAX - 6, u32::MAX - 1, u32::MAX];
+    let mut backing = [0u8; 32];
+    for &(w, h) in ws.iter().flat_map(|w| [(*w, 0u32), (*w, 1), (*w, 2), (0, *w), (1, *w), (8, *w)]).collect::<Vec<_>>().iter() {
+        for len in [0usize, 1, 16, 32] {
+            rep.eval(C::GROUP);
+            rep.count("huge_geometries_checked", 1);
+            let req: u128 = C::PLANES as u128 * ((w as u128 * C::BPP as u128 + 7) / 8) * h as u128;
+            let want_ok = (len as u128) >= req;
+            rep.nontrivial(h64(&[hash_str(C::GROUP), 0x4875, w as u64, h as u64, len as u64]));
+            let r = catch_unwind(AssertUnwindSafe(|| VarDisplay::<C>::new(w, h, &mut backing[..len], false).map(|d| d.buffer().len())));
+            let case = J::obj().set("colour_type", C::GROUP).set("width", w).set("height", h).set("supplied_len", len).set("model_required_len", format!("{}", req));
+            let mut fail = |class: &str, tag: &str, detail: String| {
+                rep.fail(Failure { panel: C::GROUP.into(), entry: "VarDisplay::new".into(), class: class.into(), tags: vec![C::TAG.to_string(), "huge".into(), tag.into()], detail, case: case.clone() });
+            };
+            match r {
+                Err(p) => fail("vardisplay-accepts-too-small", "panic", format!("{}::new({}, {}, slice of {} bytes) panicked: {}", C::GROUP, w, h, len, panic_msg(p))),
+                Ok(Ok(exposed)) => {
+                    if !want_ok {
+                        fail("vardisplay-accepts-too-small", "accepted", format!("{}::new({}, {}, slice of {} bytes) returned Ok although {} bytes are required", C::GROUP, w, h, len, req));
+                    } else if exposed as u128 != req {
+                        fail("exposed-length", "huge", format!("{}::new({}, {}, slice of {} bytes): buffer().len() = {}, required {}", C::GROUP, w, h, len, exposed, req));
+                    }
+                }
+                Ok(Err(_)) => {
+                    if want_ok {
+                        fail("vardisplay-rejects-sufficient", "rejected", format!("{}::new({}, {}, slice of {} bytes) returned Err although {} bytes suffice", C::GROUP, w, h, len, req));
+                    }
+                }
+            }
+        }
+    }
+}
+
 pub fn run(ctx: &Ctx) -> Report {
     let miri = ctx.mode == "miri";
     let al = aliases();
@@ -663,6 +699,11 @@ pub fn run(ctx: &Ctx) -> Report {
         Case::Var(_, w, h) => var_case::<OctColor>(*w, *h, every_pixel, miri, rep),
         Case::BufLen(w) => buffer_len_row(*w, &hs, rep),
     });
+    if ctx.shard.0 == 0 && !miri {
+        huge_case::<Color>(&mut rep);
+        huge_case::<TriColor>(&mut rep);
+        huge_case::<OctColor>(&mut rep);
+    }
     rep.note("reference formula: planes * rows * ceil(width*bits_per_pixel/8); alias geometry from the driver module's WIDTH/HEIGHT constants, colour type per alias from DESIGN appendix A");
     rep.note("distinct_nontrivial hashes every alias, every (colour type, w, h, supplied length) VarDisplay case and one entry per buffer_len width; buffer_len (w,h) pairs are counted exactly in counters.buffer_len_pairs_checked");
     rep.note(if every_pixel {
